@@ -119,7 +119,6 @@ func (vt *Model) decset(params [][]int) {
 			// cursor is not saved and nothing is cleared
 			vt.activeScreen = vt.altScreen
 			vt.mode.smcup = true
-			vt.mode.altScroll = true
 		case 1000:
 			vt.mode.mouseButtons = true
 		case 1002:
@@ -138,9 +137,6 @@ func (vt *Model) decset(params [][]int) {
 			vt.mode.smcup = true
 			// The alternate screen starts out cleared
 			vt.ed(2)
-			// Enable altScroll in the alt screen. This is only used
-			// if the application doesn't enable mouse
-			vt.mode.altScroll = true
 		case 2004:
 			vt.mode.paste = true
 		}
@@ -175,7 +171,6 @@ func (vt *Model) decrst(params [][]int) {
 			}
 			vt.activeScreen = vt.primaryScreen
 			vt.mode.smcup = false
-			vt.mode.altScroll = false
 		case 1000:
 			vt.mode.mouseButtons = false
 		case 1002:
@@ -193,7 +188,6 @@ func (vt *Model) decrst(params [][]int) {
 			}
 			vt.activeScreen = vt.primaryScreen
 			vt.mode.smcup = false
-			vt.mode.altScroll = false
 			vt.decrc()
 		case 1048:
 			vt.decrc()
